@@ -136,7 +136,26 @@ func c05RegexGrammar(rng *rand.Rand) string {
 		case 10:
 			return "(" + word() + ")"
 		case 11:
-			return word() + `\d` + word()
+			// A class escape directly between two literal runs; the letter
+			// before the backslash may be the letter of the escape (ad\d_banner,
+			// news\sfeed, sw\w-loader).
+			w := word()
+			if rng.Intn(2) == 0 {
+				w = []string{"ad", "road", "news", "ads", "sw", "show", "window", "d", "s", "w"}[rng.Intn(10)]
+			}
+			esc := `\d`
+			if last := w[len(w)-1]; strings.IndexByte("dws", last) >= 0 && rng.Intn(3) > 0 {
+				esc = `\` + string(last)
+				if rng.Intn(6) == 0 {
+					esc = strings.ToUpper(esc)
+				}
+			}
+			tail := word()
+			if rng.Intn(2) == 0 {
+				tail = []string{"_banner", "feed_widget", "-loader", "_ad", "x"}[rng.Intn(5)]
+			}
+
+			return w + esc + tail
 		case 12:
 			return "[" + word()[:2] + "]"
 		default:
